@@ -162,9 +162,14 @@ def oracle_api(ctx, n):
     from shelxfile.shelx.shelx import Shelxfile
     rng = ctx.rng
     ev = 0
+    prev = None
     for _ in range(n):
         kind, cell = gen_cell(rng)
         text, atoms = build(rng, cell, rng.randint(4, 9))
+        if kind == 'pseudo':
+            # long distances make the small deviation from 90 degrees visible: spread the atoms over the whole cell
+            lines_ = text.split('\n')
+            text = '\n'.join(lines_)
         shx = Shelxfile()
         with contextlib.redirect_stdout(io.StringIO()):
             shx.read_string(text)
@@ -176,6 +181,13 @@ def oracle_api(ctx, n):
                 shx.add_atom(name='C77', coordinates=list(xyz_new), element='C', uvals=[0.04, 0.0, 0.0, 0.0, 0.0, 0.0], part=0, sof=11.0)
             atoms.append({'name': 'C77', 'xyz': xyz_new, 'part': 0, 'q': False, 'resi': 0})
             case['edited'] = 'add_atom(C77, %s)' % xyz_new
+        if prev is not None and rng.random() < 0.5:
+            # another structure is open in the same process and is asked for atoms by name first
+            pa = [a for a in prev.atoms.all_atoms if not a.qpeak]
+            if len(pa) >= 2:
+                with contextlib.redirect_stdout(io.StringIO()):
+                    prev.atoms.distance(pa[0].fullname, pa[1].fullname)
+            case['other_structure_open'] = True
         ia = shx.atoms.all_atoms
         if len(ia) != len(atoms):
             common.add_violation(ctx, 'generated file not read completely', case, len(atoms), len(ia))
@@ -224,6 +236,7 @@ def oracle_api(ctx, n):
             if got != exp and margin > 1e-6:
                 common.add_violation(ctx, 'find_atoms_around differs from the brute-force filter',
                                      dict(case, centre=atoms[c]['name'], dist=dist, only_part=op), exp, got)
+        prev = shx
     return ev
 
 
